@@ -131,6 +131,52 @@ def run(R, tier, seed, driver_ok):
         Vp = V * (1 + 2.2e-16 * rng.randn(*V.shape))
         lines.append(f'itml_run {d} {len(V)} {len(pos)} {f2b(gamma)} {f2b(tol)} {max_iter} {f2b(u)} {f2b(l)} {bits(A0p)} {bits(Vp)}')
         meta.append(None)
+    # ---- bounds that the prior M0 = LᵀL violates although the "transposed" matrix L Lᵀ (L the factor components_from_metric
+    #      returns) satisfies them, and the other way round: feasibility is a statement about M0, with a correlated prior the
+    #      two differ.  A violated bound must move the matrix; a feasible prior must come back unchanged.
+    from metric_learn._util import components_from_metric as _cfm
+    for rep in range(6 if tier == 'quick' else 40):
+        d = int(rng.randint(2, 5))
+        B = rng.randn(d, d); M0 = B.dot(B.T) + 0.3 * np.eye(d)
+        Lf = _cfm(M0); Mt = Lf.dot(Lf.T)
+        for attempt in range(200):
+            P = rng.randn(2, 2, d) * 2
+            v = P[:, 0] - P[:, 1]
+            d0 = np.einsum('ij,jk,ik->i', v, M0, v); dt = np.einsum('ij,jk,ik->i', v, Mt, v)
+            if abs(d0[0] - dt[0]) > 0.2 * max(d0[0], dt[0]):
+                break
+        else:
+            continue
+        flip = rep % 2 == 1                      # False: M0 violates the similar pair's bound, L Lᵀ does not; True: the reverse
+        hi_, lo_ = max(d0[0], dt[0]), min(d0[0], dt[0])
+        if (d0[0] > dt[0]) == flip:
+            # the similar pair is the wrong way round for this variant: use the pair as the DISSIMILAR one instead
+            yy2 = np.array([-1, 1]); u_ = float(max(d0[1], dt[1]) * 2); l_ = float(np.sqrt(hi_ * lo_))
+        else:
+            yy2 = np.array([1, -1]); u_ = float(np.sqrt(hi_ * lo_)); l_ = float(min(d0[1], dt[1]) / 2)
+        sim = v[yy2 == 1][0]; dis = v[yy2 == -1][0]
+        feas0 = (sim.dot(M0).dot(sim) <= u_) and (dis.dot(M0).dot(dis) >= l_)
+        feast = (sim.dot(Mt).dot(sim) <= u_) and (dis.dot(Mt).dot(dis) >= l_)
+        case = {'prior': 'array', 'M0': M0, 'gamma': 1.0, 'max_iter': 200, 'bounds': [u_, l_], 'pairs': P, 'y': yy2,
+                'note': f'prior feasible: {bool(feas0)}; transposed factor product feasible: {bool(feast)}'}
+        R.case(('c11-transposed', P.tobytes().hex()[:48], rep), True, branch=f'correlated-prior:{"feasible" if feas0 else "violated"}-while-LLt-{"feasible" if feast else "violated"}')
+        try:
+            with warnings.catch_warnings():
+                warnings.simplefilter('ignore')
+                est = ITML(prior=M0.copy(), gamma=1.0, max_iter=200, tol=1e-6).fit(P, yy2, bounds=np.array([u_, l_]))
+        except Exception as e:
+            R.violation(f'ITML/fit-raises-{type(e).__name__}', f'ITML.fit raised {type(e).__name__}: {str(e)[:160]}', case); continue
+        M = est.get_mahalanobis_matrix()
+        if feas0 and np.abs(M - M0).max() > 1e-9 * np.abs(M0).max():
+            R.violation('ITML/feasible-prior-changed', 'the (correlated) prior satisfies all bounds but was not returned unchanged', case)
+        if not feas0 and np.abs(M - M0).max() <= 1e-9 * np.abs(M0).max():
+            R.violation('ITML/violated-bound-ignored', 'the (correlated) prior violates a bound by a wide margin, yet it was returned unchanged (multipliers zero, constraint violated)', case)
+        V2 = np.vstack([sim, dis])
+        lines.append(f'itml_run {d} 2 1 {f2b(1.0)} {f2b(1e-6)} 200 {f2b(float(est.bounds_[0]))} {f2b(float(est.bounds_[1]))} {bits((M0 + M0.T) / 2)} {bits(V2)}')
+        meta.append((M, int(est.n_iter_), V2, np.array([1.0, -1.0]), M0, 1.0, 1e-6, 200, case, float(est.bounds_[0]), float(est.bounds_[1])))
+        A0p = M0 * (1 + 2.2e-16 * rng.randn(d, d)); A0p = (A0p + A0p.T) / 2
+        lines.append(f'itml_run {d} 2 1 {f2b(1.0)} {f2b(1e-6)} 200 {f2b(float(est.bounds_[0]))} {f2b(float(est.bounds_[1]))} {bits(A0p)} {bits(V2 * (1 + 2.2e-16 * rng.randn(2, d)))}')
+        meta.append(None)
     # ---- hard constraints (infinite gamma, however it is spelled), a zero iteration budget, integer bounds with a zero
     for rep in range(4 if tier == 'quick' else 24):
         d = int(rng.randint(2, 5))
